@@ -17,34 +17,100 @@ SPEC = {("stoich_by_cpds", "static"), ("dyn_stoich_by_cpds", "dynamic")}
 ORDER_DESTROYING = {"set", "frozenset", "sorted", "reversed"}
 
 
+DYN_FORMS = ("{v}.calculate({vals})", "{v}.fn(*({vals}[i] for i in {v}.args))", "float({v}.fn(*({vals}[i] for i in {v}.args)))",
+             "{v}.fn(*[{vals}[i] for i in {v}.args])", "float({v}.calculate({vals}))")
+
+
+def position_maps(fn: ast.FunctionDef) -> dict[str, str]:
+    """local name -> sequence it indexes: `pos = {name: i for i, name in enumerate(V)}` / `dict(zip(V, range(len(V))))`."""
+    out = {}
+    for s in walk_no_nested(fn):
+        if not (isinstance(s, ast.Assign) and isinstance(s.targets[0], ast.Name)):
+            continue
+        v = s.value
+        if isinstance(v, ast.DictComp) and len(v.generators) == 1 and not v.generators[0].ifs:
+            g = v.generators[0]
+            if isinstance(g.iter, ast.Call) and norm(g.iter.func) == "enumerate" and len(g.iter.args) == 1 and not g.iter.keywords \
+                    and isinstance(g.target, ast.Tuple) and len(g.target.elts) == 2 \
+                    and norm(v.key) == norm(g.target.elts[1]) and norm(v.value) == norm(g.target.elts[0]):
+                out[s.targets[0].id] = norm(g.iter.args[0])
+        elif isinstance(v, ast.Call) and norm(v.func) == "dict" and len(v.args) == 1 and isinstance(v.args[0], ast.Call) and norm(v.args[0].func) == "zip" \
+                and len(v.args[0].args) == 2 and norm(v.args[0].args[1]) == f"range(len({norm(v.args[0].args[0])}))":
+            out[s.targets[0].id] = norm(v.args[0].args[0])
+    return out
+
+
 def accumulation_terms(fn: ast.FunctionDef, vals: str):
-    """Extract the normal form of every `target[k] (+)= coef * values[flux]` term of an RHS assembler."""
+    """Extract the normal form of every `slot(k) += coef * values[flux]` term of an RHS assembler.
+
+    slot(k) is `A[k]`, `A[pos[k]]` (pos a position map over the variable names) or a scalar that the enclosing loop body loads
+    from `A[k]` before the inner loop and stores back to `A[k]` after it.  Terms: (table, kind, node, container A).
+    """
     sc = Scope(fn)
+    pos = position_maps(fn)
     terms = []
     problems = []
+
+    def slot_key(sub: ast.AST):
+        """(container, key text) of a slot expression, or None."""
+        if not (isinstance(sub, ast.Subscript) and isinstance(sub.value, ast.Name)):
+            return None
+        ix = sub.slice
+        if isinstance(ix, ast.Subscript) and isinstance(ix.value, ast.Name) and ix.value.id in pos:
+            return sub.value.id, norm(ix.slice)
+        return sub.value.id, norm(ix)
+
     for n in walk_no_nested(fn):
-        if not (isinstance(n, ast.AugAssign) and isinstance(n.target, ast.Subscript)):
+        if not isinstance(n, ast.AugAssign):
             continue
         loops = [l for l in sc.enclosing(n, ast.For)]
         if len(loops) < 2:
             continue
         inner, outer = loops[0], loops[1]
         ot, it_ = outer.target, inner.target
+        table = norm(outer.iter)
+        if not (table.startswith("cache.") and table.endswith(".items()")):
+            if isinstance(n.target, ast.Subscript) and "stoich" in table:
+                problems.append((n, f"loops do not walk a cache table: `{table}` / `{norm(inner.iter)}`"))
+            continue
         if not (isinstance(ot, ast.Tuple) and isinstance(it_, ast.Tuple) and len(ot.elts) == 2 and len(it_.elts) == 2):
             problems.append((n, "loop targets not (key, value) pairs"))
             continue
         okey, oval = norm(ot.elts[0]), norm(ot.elts[1])
         ikey, ival = norm(it_.elts[0]), norm(it_.elts[1])
-        table = norm(outer.iter)
-        if not (table.startswith("cache.") and table.endswith(".items()") and norm(inner.iter) == f"{oval}.items()"):
+        if norm(inner.iter) != f"{oval}.items()":
             problems.append((n, f"loops do not walk a cache table: `{table}` / `{norm(inner.iter)}`"))
             continue
         table = table[len("cache."):-len(".items()")]
+        # the slot
+        if isinstance(n.target, ast.Subscript):
+            sk = slot_key(n.target)
+            if sk is None:
+                problems.append((n, f"accumulation target `{norm(n.target)}` not understood"))
+                continue
+            cont, key = sk
+        elif isinstance(n.target, ast.Name):
+            acc = n.target.id
+            body = outer.body
+            if inner not in body:
+                continue
+            i = body.index(inner)
+            loads = [s for s in body[:i] if isinstance(s, ast.Assign) and norm(s.targets[0]) == acc and slot_key(s.value) is not None]
+            stores = [s for s in body[i + 1:] if isinstance(s, ast.Assign) and slot_key(s.targets[0]) is not None and norm(s.value) == acc]
+            if not loads or not stores:
+                problems.append((n, f"scalar accumulator `{acc}` is not loaded from / stored back to the derivative slot around the inner loop"))
+                continue
+            (cont, key), (c2, k2) = slot_key(loads[-1].value), slot_key(stores[0].targets[0])
+            if (cont, key) != (c2, k2):
+                problems.append((stores[0], f"accumulator `{acc}` is loaded from `{norm(loads[-1].value)}` but stored to `{norm(stores[0].targets[0])}`"))
+                continue
+        else:
+            continue
         if not isinstance(n.op, ast.Add):
             problems.append((n, f"term is accumulated with `{type(n.op).__name__}` instead of +="))
             continue
-        if norm(n.target.slice) != okey:
-            problems.append((n, f"accumulates into key `{norm(n.target.slice)}` instead of the table's variable key `{okey}`"))
+        if key != okey:
+            problems.append((n, f"accumulates into key `{key}` instead of the table's variable key `{okey}`"))
             continue
         v = n.value
         if not (isinstance(v, ast.BinOp) and isinstance(v.op, ast.Mult)):
@@ -56,16 +122,21 @@ def accumulation_terms(fn: ast.FunctionDef, vals: str):
             problems.append((n, f"term `{norm(v)}` does not multiply by the flux `{flux}`"))
             continue
         coef = sides[1 - sides.index(flux)]
+        dyn = [f.format(v=ival, vals=vals) for f in DYN_FORMS]
         kind = None
         if coef == ival:
             kind = "static"
+        elif coef in dyn:
+            kind = "dynamic"
+        elif f"{ival}.calculate(" in coef or f"{ival}.fn(" in coef:
+            problems.append((n, f"state-dependent coefficient `{coef}` is not evaluated on the values mapping `{vals}` that holds the fluxes"))
+            kind = "bad"
         else:
             # coefficient computed in the loop body from the table entry, on the same values mapping
             for s in inner.body:
                 if isinstance(s, ast.Assign) and norm(s.targets[0]) == coef:
                     t = norm(s.value)
-                    if t in (f"{ival}.calculate({vals})", f"{ival}.fn(*({vals}[i] for i in {ival}.args))",
-                             f"float({ival}.fn(*({vals}[i] for i in {ival}.args)))", f"{ival}.fn(*[{vals}[i] for i in {ival}.args])"):
+                    if t in dyn:
                         kind = "dynamic"
                     elif f"{ival}.calculate(" in t or f"{ival}.fn(" in t:
                         problems.append((s, f"state-dependent coefficient `{t}` is not evaluated on the values mapping `{vals}` that holds the fluxes"))
@@ -74,9 +145,35 @@ def accumulation_terms(fn: ast.FunctionDef, vals: str):
             problems.append((n, f"coefficient `{coef}` is neither the table entry nor its evaluation"))
             continue
         if kind != "bad":
-            terms.append((table, kind, n))
+            terms.append((table, kind, n, cont))
     return terms, problems
 
+
+def zero_vector(fn: ast.FunctionDef, cont: str):
+    """(assignment, names-sequence text, kind) when `cont` starts as a zero vector over a name sequence; kind in dict/series/array."""
+    z = [s for s in walk_no_nested(fn) if isinstance(s, ast.Assign) and norm(s.targets[0]) == cont]
+    if not z:
+        return None, None, None
+    v = z[0].value
+    t = norm(v)
+
+    def zero(e):
+        return isinstance(e, ast.Constant) and e.value == 0 and not isinstance(e.value, bool)
+
+    if isinstance(v, ast.Call) and norm(v.func) == "dict.fromkeys" and len(v.args) == 2 and zero(v.args[1]):
+        return z[0], norm(v.args[0]), "dict"
+    if isinstance(v, ast.DictComp) and len(v.generators) == 1 and not v.generators[0].ifs and norm(v.key) == norm(v.generators[0].target) and zero(v.value):
+        return z[0], norm(v.generators[0].iter), "dict"
+    if isinstance(v, ast.Call) and norm(v.func) == "pd.Series":
+        kw = {k.arg: k.value for k in v.keywords}
+        if v.args and "index" in kw:
+            seq = norm(kw["index"])
+            a0 = v.args[0]
+            if zero(a0) or (isinstance(a0, ast.Call) and norm(a0.func) == "np.zeros" and a0.args and norm(a0.args[0]) == f"len({seq})"):
+                return z[0], seq, "series"
+    if isinstance(v, ast.Call) and norm(v.func) == "np.zeros" and v.args and isinstance(v.args[0], ast.Call) and norm(v.args[0].func) == "len":
+        return z[0], norm(v.args[0].args[0]), "array"
+    return z[0], None, t
 
 def _loop_chain(outer: ast.For, inner: ast.For) -> list[ast.For]:
     chain = [outer]
@@ -138,6 +235,7 @@ class C01(Check):
 
     def run(self) -> None:
         mod = self.prog.module(MOD)
+        self.containers: dict[str, str] = {}
         self.a1(mod)
         self.a2(mod)
         self.a3(mod)
@@ -167,38 +265,76 @@ class C01(Check):
                                   f"values are not evaluated at the supplied state/time (variables={zt or kw.get('variables')}, time={kw.get('time')})",
                                   witness="model(t, y) ignores t or pairs y with the wrong variables")
             terms, problems = accumulation_terms(fn, vals)
-            got = {(t, k) for t, k, _ in terms}
+            got = {(t, k) for t, k, _, _ in terms}
             for node, why in problems:
                 self.violated("A1", MOD, qn, f"term {norm(node)[:50]}", node, why,
                               witness="derivative of a variable differs from sum(coefficient * flux)")
             for spec in sorted(SPEC):
                 cons = f"term-{spec[0]}"
-                hit = [n for t, k, n in terms if (t, k) == spec]
+                hit = [n for t, k, n, _ in terms if (t, k) == spec]
                 if hit:
                     self.holds("A1", MOD, qn, cons, hit[0], f"dxdt[cpd] += coef * {vals}[flux] over cache.{spec[0]} ({spec[1]} coefficient)")
-                elif not any(spec[0] in norm(p[0]) or spec[0] in p[1] for p in problems):
+                elif not any(spec[0] in norm(p[0]) or spec[0] in p[1] or spec[0] in norm(self._outer_loop(fn, p[0])) for p in problems):
                     self.violated("A1", MOD, qn, cons, fn, f"no accumulation over cache.{spec[0]}: these contributions are missing from the derivative",
                                   witness="a reaction with a state-dependent coefficient does not change its variable" if spec[1] == "dynamic"
                                   else "reactions with numeric coefficients do not change their variables")
             extra = got - SPEC
             for e in sorted(extra):
-                self.violated("A1", MOD, qn, f"term-{e[0]}-{e[1]}", [n for t, k, n in terms if (t, k) == e][0], f"unexpected accumulation {e}")
+                self.violated("A1", MOD, qn, f"term-{e[0]}-{e[1]}", [n for t, k, n, _ in terms if (t, k) == e][0], f"unexpected accumulation {e}")
+            conts = {c for _, _, _, c in terms}
+            if len(conts) > 1:
+                self.violated("A1", MOD, qn, "zero-vector", fn, f"terms are accumulated into different containers {sorted(conts)}")
+                continue
+            cont = conts.pop() if conts else "dxdt"
+            self.containers[qn] = cont
             # zero vector over all variables
-            z = [s for s in walk_no_nested(fn) if isinstance(s, ast.Assign) and norm(s.targets[0]) == "dxdt"]
-            zt = norm(z[0].value) if z else ""
-            if zt in ("dict.fromkeys(cache.var_names, 0.0)", "{k: 0.0 for k in cache.var_names}", "pd.Series(np.zeros(len(var_names), dtype=float), index=var_names)",
-                      "pd.Series(np.zeros(len(var_names)), index=var_names)", "pd.Series(0.0, index=var_names)"):
-                self.holds("A1", MOD, qn, "zero-vector", z[0], f"dxdt starts as {zt}: 0 for variables no reaction touches")
+            z, seq, kind = zero_vector(fn, cont)
+            want = "cache.var_names" if qn == "Model.__call__" else "var_names"
+            ok = seq == want
+            if ok and kind == "array":
+                # positional buffer: every slot is addressed through a position map over the same names
+                pm = position_maps(fn)
+                used = {ix.value.id for n in walk_no_nested(fn) if isinstance(n, ast.Subscript) and norm(n.value) == cont
+                        for ix in [n.slice] if isinstance(ix, ast.Subscript) and isinstance(ix.value, ast.Name)}
+                ok = bool(used) and all(pm.get(u) == want for u in used)
+            if ok and qn == "Model._get_right_hand_side":
+                rets = [r for r in walk_no_nested(fn) if isinstance(r, ast.Return) and r.value is not None]
+                rt = norm(rets[-1].value) if rets else ""
+                good = (kind == "series" and rt == cont) or (kind == "array" and rt in (f"pd.Series({cont}, index=var_names)", f"pd.Series(data={cont}, index=var_names)"))
+                if good and len(rets) == 1:
+                    self.holds("A1", MOD, qn, "returns-labelled-vector", rets[-1], f"returns `{rt}`: the accumulated vector labelled by var_names")
+                else:
+                    self.violated("A1", MOD, qn, "returns-labelled-vector", rets[-1] if rets else fn, f"returns `{rt}`, not the accumulated vector labelled by var_names",
+                                  witness="named right-hand side attributes derivatives to the wrong variables")
+            if ok:
+                self.holds("A1", MOD, qn, "zero-vector", z, f"{cont} starts as {norm(z.value)[:70]}: 0 for variables no reaction touches")
             else:
-                self.violated("A1", MOD, qn, "zero-vector", z[0] if z else fn, f"dxdt starts as `{zt}`, not as a zero vector over all variables",
+                self.violated("A1", MOD, qn, "zero-vector", z if z is not None else fn,
+                              f"{cont} starts as `{norm(z.value)[:70] if z is not None else '?'}`, not as a zero vector over all variables ({want})",
                               witness="a variable without reactions is missing from the derivative (KeyError / shorter vector)")
+
+    @staticmethod
+    def _outer_loop(fn, node) -> ast.AST:
+        sc = Scope(fn)
+        loops = [l for l in sc.enclosing(node, ast.For)]
+        return loops[-1].iter if loops else ast.Constant(value="")
 
     def a2(self, mod) -> None:
         call = mod.func("Model.__call__")
         ret = [r for r in walk_no_nested(call) if isinstance(r, ast.Return)][-1]
         t = norm(ret.value)
-        if t in ("tuple((dxdt[i] for i in cache.var_names))", "tuple([dxdt[i] for i in cache.var_names])", "tuple(dxdt[i] for i in cache.var_names)"):
+        cont = self.containers.get("Model.__call__", "dxdt")
+        _, seq, kind = zero_vector(call, cont)
+        # plain stores into the container that could add keys (a store that rewrites the slot just read is fine)
+        plain = [s_ for s_ in walk_no_nested(call) if isinstance(s_, ast.Assign) and isinstance(s_.targets[0], ast.Subscript) and norm(s_.targets[0].value) == cont]
+        rewrites = all(any(isinstance(p_, ast.Assign) and norm(p_.value) == norm(s_.targets[0]) and norm(p_.targets[0]) == norm(s_.value)
+                           for p_ in walk_no_nested(call)) for s_ in plain)
+        if t in (f"tuple(({cont}[i] for i in cache.var_names))", f"tuple([{cont}[i] for i in cache.var_names])"):
             self.holds("A2", MOD, "Model.__call__", "return-order", ret, "one entry per cache.var_names element, in that order")
+        elif t in (f"tuple({cont}.values())", f"tuple(list({cont}.values()))") and kind == "dict" and seq == "cache.var_names" and rewrites \
+                and not any(isinstance(c_, ast.Call) and norm(c_.func) in (f"{cont}.pop", f"{cont}.update", f"{cont}.setdefault", f"{cont}.clear", f"{cont}.popitem") for c_ in ast.walk(call)) \
+                and not any(isinstance(d_, ast.Delete) for d_ in ast.walk(call)):
+            self.holds("A2", MOD, "Model.__call__", "return-order", ret, f"{cont} is created from cache.var_names, never gains or loses keys, and its values are returned in insertion order")
         else:
             ok, why = order_expr_ok(ret.value)
             if ok and "cache.var_names" in t and "dxdt" in t:
